@@ -69,6 +69,16 @@ def compare_domain(text, must_accept=True):
     for key in ("name", "types", "constants", "predicates", "functions"):
         if v[key] != e[key]:
             out.append(Failure(clause=f"parsed {key} == declared {key}", expected=str(e[key]), observed=str(v[key])))
+    # the whole type tree: every type's ancestor chain through parent links is the declared chain up to object
+    chains = V.v_type_chains(got[1].types)
+    for n in e["types"]:
+        want, y = [n], n
+        while y != "object" and len(want) < 50:
+            y = e["types"].get(y, "object")
+            want.append(y)
+        if chains.get(n) != want:
+            out.append(Failure(clause="parsed type tree: ancestor chain of each type == declared chain", expected=want, observed=chains.get(n)))
+            break
     if set(v["actions"]) != set(e["actions"]):
         out.append(Failure(clause="parsed action names == declared", expected=sorted(e["actions"]), observed=sorted(v["actions"])))
     for n in e["actions"]:
@@ -135,6 +145,8 @@ class DomainFidelity(Harness):
         yield {"text": G.HEADER.format(consts="") + "(:action act :effect (and (g)) :parameters (?x - a) :precondition (and (p ?x))))", "must_accept": False}
         yield {"text": G.HEADER.format(consts="") + "(:action act :parameters (?x - a) :effect (and (g))))", "must_accept": False}
         # predicates / functions declarations
+        for tdecl in ["c - b b - a a - object", "a - object b - a c - b", "c - b d - c b - a", "d - c c - b b - a a - object", "b c - a d - c", "d - c b c - a", "c - b b - a e"]:
+            yield {"text": f"(define (domain gen) (:requirements :typing) (:types {tdecl}) (:predicates (g) (p ?x - c)) (:action act :parameters (?x - c) :precondition (and (p ?x)) :effect (and (g))))"}
         for decl in ["(:predicates (p ?x ?y - a) (g))", "(:predicates (p ?x) (q ?y - a))", "(:predicates (p ?x - a ?y))", "(:predicates (p x - a))",
                      "(:predicates (:private (p ?x - a)) (g))"]:
             yield {"text": f"(define (domain gen) (:requirements :typing) (:types b - a a - object) {decl} (:action act :parameters () :precondition (and (g)) :effect (and (g))))"}
